@@ -5,6 +5,7 @@
 From Coq Require Extraction ExtrOcamlBasic.
 From Coq Require Import ZArith List.
 From SU Require Import F32 F64.
+From SU.gen Require Import Consts.
 From SU.Model Require Import Utils PhaseAcc Tables Adsr Lfo Quantizer Midi Tanf Glide Ribbon.
 
 Extraction Language OCaml.
@@ -22,4 +23,12 @@ Extraction "model.ml"
   tanf
   linear_interp ilog_2 fabs is_almost sine_table attack_table decay_table
   pa_new pa_tick pa_tick_ok pa_set_frequency pa_set_period pa_reset pa_set_phase pa_ramp pa_index pa_fraction
-  pa_take_rolled.
+  pa_take_rolled
+  time_from sustain_from note_new GL_DIV GL_MIN_FC GL_EPS GL_T0 g_min_fc g_max_fc g_cached_t LTOT LIDX
+  Adsr.TOT Adsr.IDX
+  SINE_LUT_SIZE ADSR_CURVE_LUT_SIZE MIN_TIME_PERIOD_SEC_bits MAX_TIME_PERIOD_SEC_bits ADSR_TOT_NUM_ACCUM_BITS
+  LFO_TOT_NUM_ACCUM_BITS NUM_NOTES_PER_OCTAVE_bits SEMITONE_WIDTH_bits HALF_SEMITONE_WIDTH_bits HYSTERESIS_bits
+  ONE_OCTAVE_IN_MICROVOLTS HALF_STEP_IN_MICROVOLTS MAX_OCTAVE V_MAX_bits CC_MOD_WHEEL CC_VOLUME CC_VCF_CUTOFF
+  CC_VCF_RESONANCE CC_SUSTAIN_SWITCH CC_PORTAMENTO_SWITCH CC_PORTAMENTO_TIME CC_ALL_CONTROLLERS_OFF CC_ALL_NOTES_OFF
+  U7_HALF_SCALE HELD_DOWN_NOTE_BUFFER_LEN RIBBON_FALL_TIME_USEC RIBBON_RISE_TIME_USEC MIN_CAPTURE_TIME_USEC
+  GLIDE_MAX_FC_DIVISOR_bits GLIDE_MIN_FC_bits GLIDE_EPSILON_bits GLIDE_CACHED_T_INIT_bits.
